@@ -998,7 +998,8 @@ func (r *spRunner) run(bi int, beh []map[string]any, compare bool, res *vh.Resul
 		}
 		// delivery monitor: the worker is idle again - a connection that tracked the key throughout must not be left
 		// with an OLDER payload than the one the backend answered (payload ids grow with every backend change)
-		if vh.Str(thw["pc"]) == "idle" && r.pending["w"] == nil {
+		// (only when nothing is parked anywhere: a parked publisher may still hold the newer payload for the connection)
+		if vh.Str(thw["pc"]) == "idle" && vh.Str(thp["pc"]) == "idle" && vh.Str(rv["pc"]) == "idle" && len(r.pending) == 0 {
 			for _, o := range owes {
 				c := r.conns[o.conn]
 				h := c.held[o.key]
